@@ -485,7 +485,7 @@ def Ctx.getSubP2P (c : Ctx) (t : Topic) (a : Actor) : Ctx :=
     let del := if s.user = a.uid ∧ reader then s.delId else 0
     let (r, v) := if reader then (s.readId, s.recvId) else (0, 0)
     let acs := if sharer ∨ s.user = a.uid ∨ isAdmin sm then s!"{showMode s.want}/{showMode s.given}/{showMode sm}" else "_/_/_"
-    let priv := if s.user = a.uid then (match s.priv with | some p => s!":priv={p}" | none => "") else ""
+    let priv := if s.user = a.uid then (match s.priv with | some p => s!":priv={showTok (some p)}" | none => "") else ""
     s!"{s.user}:{acs}:r{r}:v{v}:d{del}{priv}")
   c.emit a.sid s!"meta {tn} sub[{" ".intercalate (entries.mergeSort (· ≤ ·))}]"
 
@@ -537,7 +537,10 @@ def Ctx.setSubOfflineP2P (c : Ctx) (a : Actor) (tn : TName) (target : Uid) (mode
   | none => c.emit a.sid (ctrl 500 tn)
   | some none => c.emit a.sid (ctrl 404 tn)
   | some (some s) =>
-    let privUpd : Option Tok := match priv with | .absent => none | .null => some (some "␡") | .val p => some (some p)
+    let privUpd : Option Tok := match priv with
+      | .absent => none
+      | .null => some (some "␡")
+      | .val p => if isMapTok p then (let (np, ch) := mergeTok s.priv (.val p); if ch then some np else none) else some (some p)
     let r : Except Nat (Option Mode) :=
       if mode = "" then .ok none else
       match unmarshal 0 mode.toList with
